@@ -4,7 +4,7 @@ usage: regress.py [mutants] [seeded] [probes]   (default: all)   env JOBS"""
 import glob, json, os, sys
 sys.path.insert(0, '/verif/analysis'); sys.path.insert(0, '/verif/mutants')
 import selftest, catalogue, subprocess, tempfile, shutil
-what = set(sys.argv[1:]) or {'mutants', 'seeded', 'probes'}
+what = {a for a in sys.argv[1:] if not a.startswith('--')} or {'mutants', 'seeded', 'probes'}
 ms = []
 if 'mutants' in what:
     ms += list(catalogue.M)
@@ -29,7 +29,15 @@ for mu in ms:
         # a seeded change must be reported by a rule tagged with its own property
         if not any(mu['props'][0] in f['props'] for f in r['failing']):
             v = 'SURVIVED(own property silent)'
+    own = sorted({f['rule'] for f in r['failing'] if mu['props'] and mu['props'][0] in f['props']}) if mu['id'].startswith('seeded-') else []
+    if mu['id'].startswith('seeded-') and mu['expect'] == ['?'] and own:
+        v = 'killed'
+        if '--write-meta' in sys.argv:
+            mp = os.path.join('/verif/seeded', mu['id'][7:], 'meta.json')
+            meta = json.load(open(mp))
+            meta['detected_by_rules'] = own
+            json.dump(meta, open(mp, 'w'), indent=1)
     if v not in ('killed', 'ok-silent'):
         bad += 1
-    print('%-14s %-40s expect=%s got=%s' % (v, mu['id'], mu['expect'], sorted({f['rule'] for f in r['failing']})))
+    print('%-14s %-40s expect=%s got=%s%s' % (v, mu['id'], mu['expect'], sorted({f['rule'] for f in r['failing']}), (' own=%s' % own) if own else ''))
 print('TOTAL %d, not as expected %d' % (len(ms), bad))
